@@ -128,8 +128,10 @@ def fmt(itp, val, spec, conv):
 
 class Machine:
     """one interpretation of the driver on a model environment"""
-    def __init__(self, repo, fs, fail_cases=(), pathos=True, raise_in_worker=False):
+    def __init__(self, repo, fs, fail_cases=(), pathos=True, raise_in_worker=False, postprocess=False):
         self.repo = repo; self.fs = fs
+        self.postprocess = postprocess          # hand the driver a post-processing function (it writes one product file into the directory it is given)
+        self.postprocessed = 0
         self.fail_cases = set(fail_cases)       # study-function argument tuples for which the stub raises
         self.pathos = pathos
         self.executed = []                       # argument tuples the study function was called with, in order
@@ -179,6 +181,13 @@ class Machine:
         if key in self.fail_cases:
             raise RaiseSignal(ast.Raise(exc=ast.Call(func=ast.Name(id='RuntimeError', ctx=ast.Load()), args=[], keywords=[]), cause=None), 'RuntimeError(stub study function)')
         return {'value': X.atom('study_result[' + ','.join(fmt(None, a, '', -1) for a in key) + ']')}
+
+    def postprocess_stub(self, directory, results, *args, **kwargs):
+        self.postprocessed += 1
+        path = norm(str(directory) + '/summary.dat')
+        self.fs.files[path] = ['summary of %d results' % (len(results) if isinstance(results, (list, tuple)) else -1)]
+        self.fs.effect(f'write {path}')
+        return None
 
     def pool(self):
         m = self
@@ -497,6 +506,10 @@ class Machine:
         missing = [k for k in ('directory_name', 'study_function', 'input_data', 'force_restart') if k not in params]
         if missing:
             raise AnalysisError(f'multiprocessing_run: parameters {missing} vanished')
+        if self.postprocess:
+            if 'postprocess_func' not in params:
+                raise AnalysisError('multiprocessing_run: parameter postprocess_func vanished')
+            args['postprocess_func'] = self.postprocess_stub
         args = {k: v for k, v in args.items() if k in params}
         return self.it.call(self.mod, f, [], args)
 
@@ -525,15 +538,15 @@ def _same_result(a, b):
 
 
 class Scenario:
-    def __init__(self, name, inputs, pathos=True, fail=(), avoid_crashes=True, refail=None):
-        self.name = name; self.inputs = inputs; self.pathos = pathos; self.fail = tuple(fail); self.avoid_crashes = avoid_crashes
+    def __init__(self, name, inputs, pathos=True, fail=(), avoid_crashes=True, refail=None, postprocess=False):
+        self.name = name; self.inputs = inputs; self.pathos = pathos; self.fail = tuple(fail); self.avoid_crashes = avoid_crashes; self.postprocess = postprocess
         self.refail = self.fail if refail is None else tuple(refail)      # cases that (still) raise when the study is run again
 
 
 def reference(repo, sc):
     """the uninterrupted run: (records, effect trace, machine)"""
     fs = FS()
-    m = Machine(repo, fs, fail_cases=sc.fail, pathos=sc.pathos)
+    m = Machine(repo, fs, fail_cases=sc.fail, pathos=sc.pathos, postprocess=getattr(sc, 'postprocess', False))
     try:
         out = m.run('/study', sc.inputs, force_restart=False, avoid_crashes=sc.avoid_crashes)
     except RaiseSignal as ex:
@@ -573,7 +586,7 @@ def marked_cases(snap, ref_fs, dirs, marker_names):
 
 def restart_from(repo, sc, snap):
     fs2 = FS(); fs2.restore(snap); fs2.record = False
-    m2 = Machine(repo, fs2, fail_cases=sc.refail, pathos=sc.pathos)
+    m2 = Machine(repo, fs2, fail_cases=sc.refail, pathos=sc.pathos, postprocess=getattr(sc, 'postprocess', False))
     try:
         out2 = m2.run('/study', sc.inputs, force_restart=False, avoid_crashes=True)
         return out2, m2, None
@@ -615,6 +628,8 @@ def explore(chk, repo, thorough=False):
         Scenario('negative and fractional inputs', [('x', 'X', Fraction(-1, 2), Fraction(3, 2), 'linear', [Fraction(-1, 4)], 3), ('y', 'Y', Fraction(1, 4), Fraction(3, 4), 'linear', (), 2)], pathos=False),
         Scenario('must-include values with more digits than a default array print keeps', [('x', 'X', 0, 1, 'linear', [Fraction('0.0094123456789')], 2), ('y', 'Y', 1, 2, 'linear', (Fraction('1.5000000001'),), 2)],
                  fail=((Fraction(0), Fraction(1)),)),
+        Scenario('2 x 2 grid with a post-processing function, one case raising', [('x', 'X', 0, 1, 'linear', [], 2), ('y', 'Y', 0, 1, 'linear', (), 2)], fail=((Fraction(1), Fraction(0)),), postprocess=True),
+        Scenario('3 values with a post-processing function', [('x', 'X', 0, 2, 'linear', [], 3)], pathos=False, postprocess=True),
         Scenario('must-include values the journal prints in exponent form', [('x', 'X', 0, 1, 'linear', (Fraction(1, 20000),), 2), ('y', 'Y', 0, 10 ** 21, 'linear', [Fraction(25 * 10 ** 19)], 2)]),
     ]
     n_kill = 0
